@@ -288,7 +288,7 @@ def _aff_str(terms):
     return " + ".join(_term(c, v) for c, v in terms)
 
 
-def gen_affine_einsum(rng, neg_p=0.15, two_d_p=0.25):
+def gen_affine_einsum(rng, neg_p=0.15, two_d_p=0.25, extra_p=0.25):
     """O[q] = I[a*q + b*s] * F[s] and 2-D variants; returns dict with access coefficients."""
     a = rng.choice([1, 1, 1, 2, 2, 3])
     b = rng.choice([1, 1, 1, 2, 3])
@@ -309,6 +309,11 @@ def gen_affine_einsum(rng, neg_p=0.15, two_d_p=0.25):
     else:
         decl = {"I": ["W"], "F": ["S"], "O": ["Q"]}
         expr = "O[q] = I[%s] * F[s]" % _aff_str(order)
+        if rng.random() < extra_p:
+            # a further operand holding Q or S directly (co-iterated with the projected tensor)
+            r = rng.choice(["Q", "S"])
+            decl = {"I": ["W"], "F": ["S"], "G": [r], "O": ["Q"]}
+            expr += " * G[%s]" % r.lower()
         out_ranks = ["Q"]
         ranks = ["Q", "S"]
     return {"decl": decl, "expr": expr, "out": "O", "ranks": ranks, "acc": acc, "a": a, "b": b,
